@@ -8,7 +8,7 @@ from hypothesis import strategies as st
 
 from vlib import enumer, gen
 from vlib.build import build
-from vlib.core import Part
+from vlib.core import Part, optimized_part
 from vlib.observe import Uids, snapshot, walk
 
 from nutree import SelectBranch, SkipBranch, StopTraversal, Tree
@@ -389,4 +389,5 @@ def hyp_cases(draw, tier):
 PARTS = [
     Part("verdicts", run, enum=enum_cases),
     Part("random-verdicts", run, strategy=lambda tier: hyp_cases(tier), n={"quick": 1000, "thorough": 150000}),
+    optimized_part("C08", ['verdicts', 'random-verdicts']),
 ]
